@@ -150,6 +150,23 @@ def main():
         run.violation("threaded execution has no linearisation allowed by the specification: %s" % why,
                       {"kind": "tfb_threads", "case": o})
     run.cov["threaded_runs"] = len(tobs)
+    # 5. race rounds: drop vs. the start of a blocking call, released from a barrier with swept offsets
+    nshard = 8
+    rounds = 40000 if run.thorough else 6000
+    rcases = [{"rounds": rounds, "seed": rng.randint(1, 2 ** 31)} for _ in range(nshard)]
+    robs = run_harness("tfb_race", rcases, run.wd, hang_timeout=60, shards=nshard, max_hangs=1)
+    rlines = []
+    for o in robs:
+        o.pop("case", None)
+        rlines.append(json.dumps(o, separators=(",", ":")))
+    bad = validate_obs("Obs_TFBRace", "Obs.cfg", rlines, run.wd, "race", shards=4)
+    run.cov["race_rounds"] = sum(len(o["obs"].get("rounds", [])) for o in robs)
+    run.cov["traces_validated_against_impl"] += len(robs)
+    for i, tag in bad:
+        o = robs[i]
+        last = o["obs"].get("rounds", [])[-3:]
+        run.violation("race rounds (producer drop vs. start of a blocking consumer call): %s: %s" % (tag, o["obs"].get("result")),
+                      {"kind": "tfb_race", "case": {"rounds": o["rounds"], "seed": o["seed"]}, "last_rounds": last, "result": o["obs"].get("result")})
     run.assumptions += [
         "single-driver replay interleaves at public-call granularity (each call of the current code contains one shared access, or a sequence that no other thread can interleave with)",
         "threaded schedules are sampled with seeded pauses, not enumerated; the exhaustive claim is on the model",
